@@ -76,6 +76,12 @@ def cases_for(rng, tier):
                     l = damage(rng, spell(rng, v, a), lk)
                     r = damage(rng, spell(rng, v, b), rk)
                     cases.append("cmpstr %s %s %s" % (v, hx(l), hx(r)))
+        # the SAME hash on both sides in different spellings, including invalid ones (lower-case prefix on one side only)
+        for _ in range(4 if tier == "quick" else 100):
+            t = suites.ref_format(v, suites.random_bin(rng, v), True)
+            for l, r in ((t, t.lower()), (t.lower(), t), (t, "t" + t[1:]), ("t" + t[1:], t), (t[2:], t[2:].lower()), (t, t[2:].lower()),
+                         (t, t.lower().replace("t1", "T1", 1)), (t, t), (t.lower(), t.lower()), (t, t + " "), (t + " ", t), (t, " " + t)):
+                cases.append("cmpstr %s %s %s" % (v, hx(l.encode()), hx(r.encode())))
         cases.append("cmpstr %s %s %s" % (v, hx(b""), hx(b"")))
         cases.append("cmpstr %s %s %s" % (v, hx(b"TNULL"), hx(b"T1")))
     for _ in range(n):
